@@ -114,5 +114,28 @@ package drbg
 //@   ensures err == nil ==> result0 == L
 //@   ensures err != nil ==> result0 == 0
 //@   loop 1 invariant 0 <= total && total + len(data) == L && maxBytesPerRequest > 0
+//@   bind before call getEntropy#1: EP := ghost(rndpos, id(prng.entropySource))
+//@   assert before call Reseed#1: ghost(rndpos, id(prng.entropySource)) == EP + prng.securityStrength && len(arg0) == prng.securityStrength
+//@   heapnonnil
+//@   modifies everything
+
+// ---- the limits themselves (GM/T 0105-2021: level 1 = 2^20 requests / 600 s, level 2 = 2^10 requests
+// / 60 s; the test level 8 requests / 6 s); durations in nanoseconds
+//@ func (*BaseDrbg).setSecurityLevel property C17
+//@   ensures hd.securityLevel == securityLevel
+//@   ensures securityLevel == SECURITY_LEVEL_TWO ==> hd.reseedIntervalInCounter == 1024 && hd.reseedIntervalInTime == 60000000000
+//@   ensures securityLevel == SECURITY_LEVEL_TEST ==> hd.reseedIntervalInCounter == 8 && hd.reseedIntervalInTime == 6000000000
+//@   ensures securityLevel != SECURITY_LEVEL_TWO && securityLevel != SECURITY_LEVEL_TEST ==> hd.reseedIntervalInCounter == 1048576 && hd.reseedIntervalInTime == 600000000000
+//@   modifies hd.securityLevel, hd.reseedIntervalInCounter, hd.reseedIntervalInTime
+
+//@ func (*HashDrbg).derive trusted
+//@   ensures len(result) == len
+//@   modifies nothing
+
+//@ func (*HashDrbg).Reseed property C17
+//@   requires hd.seedLength == len(hd.v) && hd.seedLength == len(hd.c) && hd.seedLength >= 0
+//@   let S := state()
+//@   ensures err == nil ==> hd.reseedCounter == 1
+//@   ensures err != nil ==> unchanged(S, *hd) && unchanged(S, hd.v) && unchanged(S, hd.c)
 //@   heapnonnil
 //@   modifies everything
